@@ -15,7 +15,7 @@ pub fn def() -> PropDef {
             "worker / updater / merge thread interleavings are those the OS produces, steered by the flush-every-N hook; the verdict never depends on them",
             "documents: uid (u64 fast+indexed+stored), group (raw string), body (text), num (i64 fast+indexed+stored)",
         ],
-        subs: vec![Box::new(Seq), Box::new(Producers), Box::new(super::c02_shared::Shared), Box::new(LateDelete)],
+        subs: vec![Box::new(Seq), Box::new(Producers), Box::new(super::c02_shared::Shared), Box::new(LateDelete), Box::new(LatePush)],
     }
 }
 
@@ -197,6 +197,136 @@ impl Sub for LateDelete {
             cx.nontrivial(crate::engine::fnv(&serde_json::to_vec(c).unwrap()));
         }
         cx.sample(|| json!({"sub": "late_delete", "cfg": c.cfg, "rounds": c.rounds.len(), "late_delete_hits": hits, "policy_merged": merged}));
+        Ok(())
+    }
+}
+
+// ------------------------------------------------------------------------------------------------
+/// A delete that has drawn its opstamp but is not in the delete queue yet (the producer thread is held at the
+/// `delete_query:stamped` point) while another producer adds documents of the same term, which are cut into their own
+/// segment before the delete arrives: "a delete removes only documents that were added before it" - the documents stamped
+/// after the delete stay, those stamped before it go.
+pub struct LatePushState {
+    reached: std::sync::atomic::AtomicBool,
+    release: std::sync::atomic::AtomicBool,
+}
+thread_local! {
+    static LATE_PUSH: std::cell::RefCell<Option<std::sync::Arc<LatePushState>>> = const { std::cell::RefCell::new(None) };
+}
+pub fn late_push_point(name: &'static str) {
+    if name != "delete_query:stamped" {
+        return;
+    }
+    LATE_PUSH.with(|l| {
+        if let Some(st) = l.borrow().as_ref() {
+            st.reached.store(true, std::sync::atomic::Ordering::SeqCst);
+            let deadline = std::time::Instant::now() + std::time::Duration::from_millis(150);
+            while !st.release.load(std::sync::atomic::Ordering::SeqCst) && std::time::Instant::now() < deadline {
+                std::thread::yield_now();
+            }
+        }
+    });
+}
+#[derive(Clone, Debug, Serialize, Deserialize)]
+pub struct LatePushCase {
+    pub before: u8,
+    pub after: u8,
+    pub threads: u8,
+}
+pub struct LatePush;
+impl Sub for LatePush {
+    type Case = LatePushCase;
+    fn name(&self) -> &'static str {
+        "late_push"
+    }
+    fn cases(&self, tier: Tier) -> u32 {
+        tier.pick(48, 600)
+    }
+    fn shards(&self, _t: Tier) -> usize {
+        8
+    }
+    fn strategy(&self, _tier: Tier) -> BoxedStrategy<LatePushCase> {
+        (1u8..4, 1u8..4, 1u8..3).prop_map(|(before, after, threads)| LatePushCase { before, after, threads }).boxed()
+    }
+    fn mandatory_labels(&self, _t: Tier) -> Vec<&'static str> {
+        vec!["delete_held_between_stamp_and_queue"]
+    }
+    fn run(&self, c: &LatePushCase, cx: &Ctx) -> CaseResult {
+        use std::sync::atomic::Ordering;
+        crate::props::c02_producers::install_callback();
+        let cfg = HistCfg { threads: c.threads, flush_every: 1, policy: Policy::NoMerge, sorted: None, dir: DirKind::Ram, tiny_blocks: false, short_writes: false, codec_switch: false, jitter: 0 };
+        let mut env = Env::new(cfg)?;
+        env.check_quiescence = false;
+        // documents of group 0 added (and returned) before the delete is called
+        for k in 0..c.before {
+            env.apply(&Op::Add(AddSpec { grp: 0, words: vec![k % NUM_WORDS], num: k as i16 }), cx)?;
+        }
+        let st = std::sync::Arc::new(LatePushState { reached: Default::default(), release: Default::default() });
+        let grp_field = env.f.grp;
+        let (f_uid, f_grp, f_body, f_num) = (env.f.uid, env.f.grp, env.f.body, env.f.num);
+        let mut added: Vec<(u64, u64, DocRec)> = vec![];
+        let mut reached = false;
+        let delete_opstamp: u64 = std::thread::scope(|scope| -> Result<u64, Failure> {
+            let w = env.writer.as_ref().unwrap();
+            let st2 = st.clone();
+            let deleter = std::thread::Builder::new()
+                .name("late-deleter".into())
+                .spawn_scoped(scope, move || {
+                    LATE_PUSH.with(|l| *l.borrow_mut() = Some(st2));
+                    let o = w.delete_term(tantivy::Term::from_field_text(grp_field, "g0"));
+                    LATE_PUSH.with(|l| *l.borrow_mut() = None);
+                    o
+                })
+                .expect("spawn");
+            let t0 = std::time::Instant::now();
+            while !st.reached.load(Ordering::SeqCst) && t0.elapsed() < std::time::Duration::from_millis(500) {
+                std::thread::yield_now();
+            }
+            reached = st.reached.load(Ordering::SeqCst);
+            // the delete has its opstamp; these documents get later ones, and their segments are cut at once
+            for k in 0..c.after {
+                let uid = 9_000_000 + k as u64;
+                let rec = DocRec { grp: 0, words: vec![k % NUM_WORDS, 1], num: 100 + k as i64 };
+                let mut d = tantivy::TantivyDocument::new();
+                d.add_u64(f_uid, uid);
+                d.add_text(f_grp, "g0");
+                d.add_text(f_body, rec.body());
+                d.add_i64(f_num, rec.num);
+                let o = w.add_document(d).or_fail("add_failed")?;
+                added.push((uid, o, rec));
+            }
+            std::thread::sleep(std::time::Duration::from_millis(25));
+            st.release.store(true, Ordering::SeqCst);
+            deleter.join().map_err(|_| Failure::new("panic:deleter", ""))
+        })?;
+        cx.label_if(reached, "delete_held_between_stamp_and_queue");
+        // model: the delete removes what was added before it, nothing stamped after it
+        let gone: Vec<u64> = env.pending.iter().filter(|(_, r)| r.grp == 0).map(|(u, _)| *u).collect();
+        for u in gone {
+            env.pending.remove(&u);
+        }
+        let mut later = 0;
+        for (uid, o, rec) in added {
+            if o > delete_opstamp {
+                env.pending.insert(uid, rec);
+                later += 1;
+            }
+            env.all_uids.push(uid);
+        }
+        cx.label_if(later > 0, "documents_stamped_after_the_held_delete");
+        env.last_opstamp = None;
+        env.dirty = true;
+        env.apply(&Op::Commit, cx).map_err(|fl| {
+            if fl.sig.starts_with("content_") {
+                Failure::new("delete_removed_document_stamped_after_it", format!("delete_term(g0) drew opstamp {delete_opstamp} and reached the delete queue after documents with later opstamps had been cut into their segments: {}", fl.detail))
+            } else {
+                fl
+            }
+        })?;
+        if reached && later > 0 {
+            cx.nontrivial(crate::engine::fnv(&serde_json::to_vec(c).unwrap()));
+        }
+        cx.sample(|| json!({"sub": "late_push", "before": c.before, "after": c.after, "threads": c.threads}));
         Ok(())
     }
 }
